@@ -12,19 +12,22 @@
 //	D:<init>:<max>:<num>:<den> (DelayOnError, ns, Multiplier=num/den)  Y:<MaxRetries> (Retry)
 //
 // message: <ctx>/<cid>/<delay>/<hcid>
-// ctx    : live | cancelled | deadline       cid: n (no key) | <hex> ("-" = key present, empty)
+// ctx    : live | cancelled | deadline (now+1h) | far (a deadline beyond every Timeout: now+1000h), optionally followed by
+//          !a (the message was acked before it enters the chain) or !k (nacked before)      cid: n (no key) | <hex> ("-" = key present, empty)
 // delay  : n | ns<int> | raw<hex>             (the _watermill_delayed_for metadata before the call)
 // hcid   : n | <hex>                          (the handler overwrites the incoming correlation id with this value)
 // script : results of the handler per attempt, ';' separated, the last one repeats:
 //
 //	ok/<outs>   er/<err>/<outs>   pn/<pval>
 //	outs: "-" or '+' separated <idhex>~<meta>     err: '>' separated layers p<hex> (pkg/errors.Wrap) f<hex> (fmt %w) … b<hex>
-//	pval: s<hex> | e<hex> | n
+//	pval: s<hex> | e<hex> | n | l<hex> ([]string{…}: a value of a non-comparable type)
+//	err base: b<hex> (errors.New) | u<hex> (an error of a slice type – not comparable, not hashable)
 //
 // Observation of a stack case:
 //
 //	ret/<outs>/<err> | panic/<pval> | hang
-//	calls=<dl><done><acked>/<delay>,…      (what the handler saw at each invocation)
+//	calls=<dl><done><settled>/<delay>,…    (what the handler saw at each invocation; dl: 0 no deadline, 1 deadline within
+//	                                        2h, 2 later; settled: 0 no, 1 acked, 2 nacked)
 //	after=<same><dl><done>/<acked>/<delay>/<until>/<meta>
 package main
 
@@ -38,6 +41,7 @@ import (
 	"strconv"
 	"strings"
 	"sync"
+	"sync/atomic"
 	"time"
 
 	"github.com/ThreeDotsLabs/watermill/components/delay"
@@ -101,6 +105,8 @@ type caseEnv struct {
 	// code under test races on a slice) is reported without being dereferenced
 	valid map[*message.Message]bool
 	built []*message.Message
+	// error values that cannot be map keys, identified by the address of their first element
+	sliceErrs []sliceErrSpec
 }
 
 type pvalSpec struct {
@@ -163,7 +169,7 @@ func parseOuts(s string, env *caseEnv) ([]*message.Message, error) {
 func parseErr(s string, env *caseEnv) (error, error) {
 	layers := strings.Split(s, ">")
 	last := layers[len(layers)-1]
-	if len(last) < 2 || last[0] != 'b' {
+	if len(last) < 2 || (last[0] != 'b' && last[0] != 'u') {
 		return nil, fmt.Errorf("bad err base")
 	}
 	txt, err := unhex(last[1:])
@@ -171,6 +177,14 @@ func parseErr(s string, env *caseEnv) (error, error) {
 		return nil, err
 	}
 	var e error = stderrors.New(txt)
+	if last[0] == 'u' {
+		se := sliceErr{txt}
+		e = se
+		if len(layers) == 1 {
+			env.sliceErrs = append(env.sliceErrs, sliceErrSpec{&se[0], s})
+			return e, nil
+		}
+	}
 	for i := len(layers) - 2; i >= 0; i-- {
 		l := layers[i]
 		if len(l) < 2 {
@@ -191,6 +205,17 @@ func parseErr(s string, env *caseEnv) (error, error) {
 	}
 	env.errSpecs[e] = s
 	return e, nil
+}
+
+// sliceErr is an error whose dynamic type is not comparable (like validator.ValidationErrors or multi-error slices):
+// using it as a map key or comparing two of them with == panics at run time.
+type sliceErr []string
+
+func (e sliceErr) Error() string { return strings.Join(e, "; ") }
+
+type sliceErrSpec struct {
+	first *string
+	spec  string
 }
 
 type panicErr struct{ s string }
@@ -229,6 +254,12 @@ func parseScript(s string, env *caseEnv) ([]result, error) {
 					return nil, err
 				}
 				v = t + env.tag
+			case strings.HasPrefix(p[1], "l"):
+				t, err := unhex(p[1][1:])
+				if err != nil {
+					return nil, err
+				}
+				v = []string{t + env.tag}
 			case strings.HasPrefix(p[1], "e"):
 				t, err := unhex(p[1][1:])
 				if err != nil {
@@ -340,6 +371,10 @@ func pvalCanon(v interface{}, env *caseEnv) string {
 	switch x := v.(type) {
 	case string:
 		return "s" + wh.HexS(strings.TrimSuffix(x, tagOrNone(env.tag)))
+	case []string:
+		if len(x) == 1 {
+			return "l" + wh.HexS(strings.TrimSuffix(x[0], tagOrNone(env.tag)))
+		}
 	case *panicErr:
 		for _, ps := range env.pvalSpecs {
 			if ps.v == v {
@@ -354,6 +389,13 @@ func pvalCanon(v interface{}, env *caseEnv) string {
 func errCanon(err error, env *caseEnv) string {
 	if err == nil {
 		return "none"
+	}
+	if se, ok := err.(sliceErr); ok && len(se) > 0 {
+		for _, sp := range env.sliceErrs {
+			if sp.first == &se[0] {
+				return sp.spec
+			}
+		}
 	}
 	if s, ok := lookupErr(err, env); ok {
 		return s
@@ -397,6 +439,7 @@ func buildMws(spec string, ctxKind string, env *caseEnv) ([]message.HandlerMiddl
 	if spec == "-" {
 		return nil, info, nil
 	}
+	ctxKind = strings.SplitN(ctxKind, "!", 2)[0]
 	done := ctxKind == "cancelled"
 	toks := strings.Split(spec, ",")
 	// first pass: does a Retry see a done context?
@@ -558,7 +601,23 @@ func newCall(msgSpec, scriptSpec, tag string) (*callState, bool) {
 	}
 	cs.script = script
 	msg := message.NewMessage("in"+tag, []byte("payload"))
-	switch mp[0] {
+	ck := strings.SplitN(mp[0], "!", 2)
+	if len(ck) == 2 {
+		// settled before the message enters the chain
+		switch ck[1] {
+		case "a":
+			msg.Ack()
+		case "k":
+			msg.Nack()
+		default:
+			return nil, false
+		}
+	}
+	switch ck[0] {
+	case "far":
+		c, cancel := context.WithDeadline(context.Background(), time.Now().Add(1000*time.Hour))
+		cs.cancel = cancel
+		cs.orig = c
 	case "live":
 		cs.orig = context.WithValue(context.Background(), ctxKeyT{}, 1)
 	case "cancelled":
@@ -588,17 +647,38 @@ func newCall(msgSpec, scriptSpec, tag string) (*callState, bool) {
 	return cs, true
 }
 
+// dlDigit classifies the deadline a context carries: 0 none, 1 within two hours (every Timeout of the harness is at most one
+// hour), 2 later (only a caller-set "far" deadline of 1000h).
+func dlDigit(ctx context.Context) string {
+	d, ok := ctx.Deadline()
+	switch {
+	case !ok:
+		return "0"
+	case time.Until(d) <= 2*time.Hour:
+		return "1"
+	}
+	return "2"
+}
+
+// settleDigit: 0 not settled, 1 acked, 2 nacked.
+func settleDigit(m *message.Message) string {
+	select {
+	case <-m.Acked():
+		return "1"
+	default:
+	}
+	select {
+	case <-m.Nacked():
+		return "2"
+	default:
+	}
+	return "0"
+}
+
 // handle is the scripted handler's behaviour for the call cs.
 func (cs *callState) handle(m *message.Message) ([]*message.Message, error) {
 	ctx := m.Context()
-	_, dl := ctx.Deadline()
-	acked := false
-	select {
-	case <-m.Acked():
-		acked = true
-	default:
-	}
-	cs.calls = append(cs.calls, b01(dl)+b01(ctx.Err() != nil)+b01(acked)+"/"+delayCanon(m.Metadata))
+	cs.calls = append(cs.calls, dlDigit(ctx)+b01(ctx.Err() != nil)+settleDigit(m)+"/"+delayCanon(m.Metadata))
 	if cs.setHcid {
 		m.Metadata.Set(middleware.CorrelationIDMetadataKey, cs.hcid)
 	}
@@ -645,17 +725,12 @@ func (cs *callState) observe(o outcome) string {
 		sb.WriteString(strings.Join(cs.calls, ","))
 	}
 	ctx := msg.Context()
-	_, dl := ctx.Deadline()
-	acked := false
-	select {
-	case <-msg.Acked():
-		acked = true
-	default:
-	}
-	sb.WriteString(" after=" + b01(ctx == cs.orig) + b01(dl) + b01(ctx.Err() != nil) + "/" + b01(acked) + "/" +
+	sb.WriteString(" after=" + b01(ctx == cs.orig) + dlDigit(ctx) + b01(ctx.Err() != nil) + "/" + settleDigit(msg) + "/" +
 		delayCanon(msg.Metadata) + "/" + untilCanon(msg.Metadata) + "/" + metaCanon(msg.Metadata))
 	return sb.String()
 }
+
+var hangs int32
 
 func wrap(mws []message.HandlerMiddleware, h message.HandlerFunc) message.HandlerFunc {
 	// outermost first
@@ -675,17 +750,29 @@ func runStack(req string) string {
 		return "bad-request"
 	}
 	defer cs.cancel()
-	mws, _, err := buildMws(f[1], strings.Split(f[2], "/")[0], cs.env)
+	mws, info, err := buildMws(f[1], strings.Split(f[2], "/")[0], cs.env)
 	if err != nil {
 		return "bad-request"
 	}
 	h := wrap(mws, cs.handle)
 	doneCh := make(chan outcome, 1)
 	go func() { doneCh <- cs.invoke(h) }()
+	// A Retry that is to find its context done was given a one-hour interval (see buildMws): if the code under test
+	// does not stop there the call sleeps for an hour.  Such a call must return at once, so it is given 3 s instead of 20,
+	// and after a few hangs the remaining calls of that kind are not waited for at all (a changed tree would otherwise
+	// spend the whole time budget in watchdogs).
+	limit := 20 * time.Second
+	if info.retrySeesDone {
+		limit = 3 * time.Second
+		if atomic.LoadInt32(&hangs) >= 8 {
+			limit = 200 * time.Millisecond
+		}
+	}
 	var o outcome
 	select {
 	case o = <-doneCh:
-	case <-time.After(20 * time.Second):
+	case <-time.After(limit):
+		atomic.AddInt32(&hangs, 1)
 		return "hang"
 	}
 	return cs.observe(o)
